@@ -14,6 +14,7 @@ mod enc;
 mod fscomp;
 mod fuzz;
 mod header;
+mod hdrsrc;
 mod history;
 mod histstack;
 mod integrity;
@@ -86,6 +87,8 @@ fn main() {
         "c16" => cli::c16_cases(&mut rng, &tier, &mut out),
         "c16-symlink" => cli::c16_symlink_cases(&mut rng, &tier, &mut out),
         "c02" => repair::c02_cases(&mut rng, &tier, &mut out),
+        "c13-hdr" => hdrsrc::c13_hdr_cases(&mut rng, &tier, &mut out),
+        "c02-small" => hdrsrc::c02_small_cases(&mut rng, &tier, &mut out),
         "c02-comp" => fscomp::c02_comp_cases(&mut rng, &tier, &arg(&args, "--aspect").unwrap_or_default(), &mut out),
         "c05" => repair::c05_cases(&mut rng, &tier, &mut out),
         "c05-blocks" => repair::c05_blocks_cases(&mut rng, &tier, &mut out),
